@@ -19,6 +19,7 @@ from ..class_diagrams.class_diagram import (
     ClassRelation,
     WrappedClass,
 )
+from ..class_diagrams.failures import ClassIsUnMappedInClassDiagram
 from ..class_diagrams.wrapped_field import WrappedField
 
 logger = logging.getLogger(__name__)
@@ -127,6 +128,23 @@ class ORMatic:
         )
         for edge in self.class_dependency_graph.inheritance_relations:
             self.inheritance_graph.add_edge(edge.source.index, edge.target.index, None)
+
+        # a class may inherit from a class of the diagram through bases that are not part of the diagram;
+        # its table still has to be created after (and derive from) the table of that ancestor
+        for wrapped_class in self.class_dependency_graph.wrapped_classes:
+            if self.inheritance_graph.in_degree(wrapped_class.index) > 0:
+                continue
+            for ancestor in wrapped_class.clazz.__mro__[1:]:
+                try:
+                    wrapped_ancestor = self.class_dependency_graph.get_wrapped_class(
+                        ancestor
+                    )
+                except ClassIsUnMappedInClassDiagram:
+                    continue
+                self.inheritance_graph.add_edge(
+                    wrapped_ancestor.index, wrapped_class.index, None
+                )
+                break
 
     def _add_alternative_mappings_to_class_diagram(self):
         """
